@@ -63,3 +63,8 @@ check("C09",
       "Exploration: every generated request (all kinds, option subsets, value lists, batch shapes, ids/keys at the 16-bit boundary, compression, tracing, stream ids) is serialized with SerializedRequest::make and parsed by the reference parser: version, flags, stream, opcode, length == body size with no trailing bytes, every body field in spec order; compressed bodies inflate to the uncompressed serialization; inputs the protocol cannot carry must produce an error and no frame.",
       "Trusted: vkit::wire::request parser, lz4_flex/snap. Statements >= 2 GiB not generated. The session-level half (statement/profile settings reach the wire) is the mock-cluster sub-check (when present in evidence sub_checks).",
       "DESIGN.md 2/C09")
+check("C07",
+      "end-to-end property-based testing against a scripted mock cluster: generated page splits, paging states, per-page fault injections and consumer behaviours; reference model of delivered rows and of page requests",
+      "Exploration: each generated script (pages incl. empty ones, distinct paging states incl. an empty one, per-page faults: delay, node-switching errors, same-node retried read timeout, non-retried errors, a connection cut; consumer eager/yielding/early drop; query_iter with and without values, execute_iter) runs through a real Session; delivered rows must equal the scripted pages in order up to the first non-retried failure and every page request seen by the mock must carry the previous page's state, the page size and the values. Control-connection pager: session start over a system.peers paged by 1-3 rows.",
+      "Trusted: vkit::mock + reference codec, model of the default retry policy's retried faults. Real loopback sockets and tokio scheduling: interleavings inside the driver are sampled, not enumerated. A fresh session is used after a scripted connection cut.",
+      "DESIGN.md 2/C07")
